@@ -28,5 +28,6 @@ OBLIGATIONS = krow_reader_obligations() + [
     _o("kget_cells_small_cols", 90, "plain rows, cell-runs in 1..2, area corners <= 4"),
     _o("kget_cells_small_rows", 125, "row-runs in 1..2, plain cells, area corners <= 4"),
     _o("kget_column_small", 56, "repeats in 1..2, x <= 4"),
+    _o("kget_columns_range_small", 20, "cell-runs in 1..2, column range corners <= 5"),
     _o("kget_rows_small_live", 5, "companion of known finding C08-traverse-live-row", expect="finding", finding="C08-traverse-live-row"),
 ]
